@@ -163,7 +163,10 @@ class ArmArch(Architecture):
         if extras:
             ssize = round_up(extras)
             if self.has_option("thumb"):
-                raise NotImplementedError()
+                while ssize > 0:
+                    inc = min(124, ssize)
+                    yield thumb_instructions.SubSp(inc)
+                    ssize -= inc
             else:
                 for part in split_imm32(ssize):
                     yield arm_instructions.SubImm(SP, SP, part)
@@ -185,7 +188,10 @@ class ArmArch(Architecture):
         if extras:
             ssize = round_up(extras)
             if self.has_option("thumb"):
-                raise NotImplementedError()
+                while ssize > 0:
+                    inc = min(124, ssize)
+                    yield thumb_instructions.AddSp(inc)
+                    ssize -= inc
             else:
                 for part in split_imm32(ssize):
                     yield arm_instructions.AddImm(SP, SP, part)
@@ -257,7 +263,7 @@ class ArmArch(Architecture):
                 if isinstance(arg, ArmRegister):
                     # Store register on stack:
                     if self.has_option("thumb"):
-                        raise NotImplementedError()
+                        yield thumb_instructions.Str1(arg, sp_offset)
                     else:
                         yield arm_instructions.Str1(arg, SP, sp_offset)
                 elif isinstance(arg, StackLocation):
@@ -324,7 +330,9 @@ class ArmArch(Architecture):
                 if isinstance(arg, ArmRegister):
                     # Load the value that the caller stored on the stack:
                     if self.has_option("thumb"):
-                        raise NotImplementedError()
+                        yield thumb_instructions.Ldr2(
+                            arg, self.fp, arg_loc.offset
+                        )
                     else:
                         yield arm_instructions.Ldr1(
                             arg, self.fp, arg_loc.offset
